@@ -283,6 +283,16 @@ func (p *sparser) parseType() string {
 	if p.cur().k != "id" {
 		p.fail("expected type name, got %q", p.cur().s)
 	}
+	if (p.cur().s == "map" || p.cur().s == "seq") && p.toks[p.p+1].k == "op" && p.toks[p.p+1].s == "[" {
+		kw := p.next().s
+		p.expect("[")
+		inner := p.parseType()
+		p.expect("]")
+		if kw == "seq" {
+			return sb.String() + "seq[" + inner + "]"
+		}
+		return sb.String() + "map[" + inner + "]" + p.parseType()
+	}
 	sb.WriteString(p.next().s)
 	if p.isOp(".") && p.toks[p.p+1].k == "id" {
 		p.next()
